@@ -2,6 +2,7 @@ package p_xbinary
 
 import (
 	"fmt"
+	"syscall"
 	"unsafe"
 
 	"github.com/acquirecloud/golibs/xbinary"
@@ -26,6 +27,8 @@ type Info15Z struct {
 	L      int
 	Prefix int
 	Calls  int // Write calls the sink saw
+	// NoArena: the address space for the case could not be had - nothing was decided
+	NoArena bool
 }
 
 // NonTrivial: the length is at a prefix boundary or the body is larger than 1 GiB.
@@ -50,15 +53,56 @@ func (i Info15Z) Classes() []string {
 	return c
 }
 
-var zeroArena []byte
+var (
+	zeroArena   []byte
+	arenaMapped bool // the arena is an anonymous mapping of its own (not a Go heap object)
+)
 
-// ReserveArena makes sure the arena holds n bytes. A fresh allocation of this size comes straight from the operating
-// system (already zero, so the runtime does not clear it): allocate once, for the largest case of the run.
-func ReserveArena(n int) {
-	if cap(zeroArena) < n {
-		zeroArena = nil
-		zeroArena = make([]byte, n)
+const arenaPage = 1 << 16 // granularity of the arena's size and of releaseArena (a multiple of every usual page size)
+
+// ReserveArena makes sure the arena holds n bytes of zeroed memory that nothing has touched yet: an anonymous private
+// mapping made with MAP_NORESERVE (address space only - no commit charge, pages appear when they are first written,
+// reading an untouched page reads the kernel's zero page), without transparent huge pages so that touching ten bytes
+// costs one small page. If the mapping cannot be had, a fresh Go allocation does the same job up to 6 GiB (it comes
+// straight from the operating system, already zero, so the runtime does not clear it); beyond that the answer is
+// false - the environment has no room for the case, which is then not decided (never a violation). Reserve once, for
+// the largest case of the run.
+func ReserveArena(n int) bool {
+	if cap(zeroArena) >= n {
+		return true
 	}
+	n = (n + arenaPage - 1) &^ (arenaPage - 1)
+	b, err := syscall.Mmap(-1, 0, n, syscall.PROT_READ|syscall.PROT_WRITE, syscall.MAP_PRIVATE|syscall.MAP_ANON|syscall.MAP_NORESERVE)
+	if err != nil && n > 6<<30 {
+		return false
+	}
+	if arenaMapped {
+		syscall.Munmap(zeroArena[:cap(zeroArena)])
+	}
+	zeroArena, arenaMapped = nil, false
+	if err == nil {
+		_ = syscall.Madvise(b, syscall.MADV_NOHUGEPAGE)
+		zeroArena, arenaMapped = b, true
+		return true
+	}
+	zeroArena = make([]byte, n)
+	return true
+}
+
+// releaseArena makes arena[off:off+n] zero again after the harness wrote there. A mapped arena gives the pages back
+// to the operating system (they read as zero afterwards), so that a long run of cases which write a few bytes at
+// scattered offsets of a many-GiB arena does not collect resident memory.
+func releaseArena(off, n int) {
+	if n <= 0 {
+		return
+	}
+	clear(zeroArena[off : off+n])
+	if !arenaMapped {
+		return
+	}
+	lo := off &^ (arenaPage - 1)
+	hi := min((off+n+arenaPage-1)&^(arenaPage-1), cap(zeroArena))
+	_ = syscall.Madvise(zeroArena[lo:hi:hi], syscall.MADV_DONTNEED)
 }
 
 // countingSink is an io.Writer that counts: it keeps the first 16 bytes of the stream and never looks at the rest.
@@ -92,7 +136,10 @@ func Run15Z(c Case15Z) (info Info15Z, v *vstat.Violation) {
 		panic(fmt.Sprintf("bad Case15Z %+v", c))
 	}
 	info.L = L
-	ReserveArena(L + 32)
+	if !ReserveArena(L + 32) {
+		info.NoArena = true
+		return info, nil
+	}
 	a := zeroArena[: L+32 : L+32]
 	val := a[:L:L]
 	var (
